@@ -83,6 +83,7 @@ type tctx struct {
 	c      int64     // constant index written (unrolled / calls form)
 	iv     ssa.Value // loop counter value (loop form); nil otherwise
 	ivK    int64     // loop form: the index written is iv + ivK
+	limbN  int64     // unrolled form: length of the limb array; a constant index into an array of another length is a fixed lane
 	offs   []int64   // every relative index printed
 	opaque bool      // an index could not be related to the written index
 	budget int
@@ -113,8 +114,16 @@ func ctrPlus(v ssa.Value) (ctr ssa.Value, k int64, ok bool) {
 	return nil, 0, false
 }
 
-func (t *tctx) index(v ssa.Value) string {
+func (t *tctx) index(v ssa.Value) string { return t.indexIn(v, 0) }
+
+// indexIn prints index v of an array of length arrLen (0: unknown).
+func (t *tctx) indexIn(v ssa.Value, arrLen int64) string {
 	v = stripConv(v)
+	if t.iv == nil && t.limbN != 0 && arrLen != 0 && arrLen != t.limbN {
+		if k, ok := constInt(v); ok {
+			return sprintf("@%d", k) // a fixed lane / fixed element of another array
+		}
+	}
 	if t.iv != nil {
 		if ctr, k, ok := ctrPlus(v); ok && ctr == t.iv {
 			t.offs = append(t.offs, k-t.ivK)
@@ -188,8 +197,8 @@ func (t *tctx) addr(v ssa.Value) string {
 		}
 		return t.addr(v.X) + "." + name
 	case *ssa.IndexAddr:
-		if _, ok := isArrayPtr(v.X.Type()); ok {
-			return t.addr(v.X) + "[" + t.index(v.Index) + "]"
+		if arr, ok := isArrayPtr(v.X.Type()); ok {
+			return t.addr(v.X) + "[" + t.indexIn(v.Index, arr.Len()) + "]"
 		}
 		return t.val(v.X) + "[" + t.index(v.Index) + "]"
 	case *ssa.UnOp:
@@ -237,7 +246,11 @@ func (t *tctx) val(v ssa.Value) string {
 		// an element of an array VALUE (`for i, v := range arr` reads a copy of
 		// arr taken before the loop): the same limb as a load through &arr[i]
 		if ld, ok := v.X.(*ssa.UnOp); ok && ld.Op == token.MUL {
-			return "ld(" + t.addr(ld.X) + "[" + t.index(v.Index) + "])"
+			var n int64
+			if arr, ok := v.X.Type().Underlying().(*types.Array); ok {
+				n = arr.Len()
+			}
+			return "ld(" + t.addr(ld.X) + "[" + t.indexIn(v.Index, n) + "])"
 		}
 		return "idx(" + t.val(v.X) + ")[" + t.index(v.Index) + "]"
 	case *ssa.Convert:
@@ -342,32 +355,40 @@ func limbGroups(fn *ssa.Function) []*limbGroup {
 				// loop form: some index of the address chain is (loop counter + k)
 				if lvl, ctr, k, arr := loopIndexOf(in.Addr); lvl != nil {
 					t := &tctx{fn: fn, iv: ctr, ivK: k, budget: 4000}
-					key := t.addr(lvl.X)
-					if ssa.Value(lvl) != in.Addr {
-						// the counter indexes an outer array: keep the fixed inner part
-						key = strings.Replace(t.addr(in.Addr), "[+0]", "[*]", 1)
-					}
+					_ = lvl
+					key := strings.Replace(t.addr(in.Addr), "[+0]", "[*]", 1)
 					t.offs = nil
 					tm := t.val(in.Val)
 					g := get(key, "loop", arr.Len(), in.Pos())
 					g.writes = append(g.writes, &limbWrite{set: loopSet(ctr, k), tmpl: tm, offs: t.offs, opaque: t.opaque, loop: true, pos: in.Pos()})
 					continue
 				}
-				ia, ok := in.Addr.(*ssa.IndexAddr)
-				if !ok {
-					continue
-				}
-				arr, ok := isArrayPtr(ia.X.Type())
-				if !ok {
-					continue
-				}
-				if c, ok := constInt(ia.Index); ok {
-					t := &tctx{fn: fn, c: c, budget: 4000}
-					key := t.addr(ia.X)
-					t.offs = nil
-					tm := t.val(in.Val)
-					g := get(key, "unrolled", arr.Len(), in.Pos())
-					g.writes = append(g.writes, &limbWrite{set: []int64{c}, tmpl: tm, offs: t.offs, opaque: t.opaque, pos: in.Pos()})
+				// unrolled form: a constant index; with nested arrays (lanes of a
+				// vector) either level may be the limb
+				addr := in.Addr
+				for level := 0; level < 2; level++ {
+					ia, ok := addr.(*ssa.IndexAddr)
+					if !ok {
+						break
+					}
+					arr, ok := isArrayPtr(ia.X.Type())
+					if !ok {
+						break
+					}
+					c, ok := constInt(ia.Index)
+					if !ok {
+						break
+					}
+					t := &tctx{fn: fn, c: c, limbN: arr.Len(), budget: 4000}
+					full := t.addr(in.Addr)
+					if strings.Count(full, "[+0]") == 1 {
+						key := strings.Replace(full, "[+0]", "[*]", 1)
+						t.offs = nil
+						tm := t.val(in.Val)
+						g := get(key, "unrolled", arr.Len(), in.Pos())
+						g.writes = append(g.writes, &limbWrite{set: []int64{c}, tmpl: tm, offs: t.offs, opaque: t.opaque, pos: in.Pos()})
+					}
+					addr = ia.X
 				}
 			case *ssa.Call:
 				callee := in.Call.StaticCallee()
@@ -628,8 +649,8 @@ func CheckUniform(run *report.Run, p *load.Program, ruleID string) []UniformGrou
 			if !lw {
 				continue
 			}
-			if rel == curveRel && g.form != "loop" {
-				// package curve: only the vector pack/split loops are limb code
+			if _, listed := expected[name]; rel == curveRel && g.form != "loop" && !listed {
+				// package curve: only the vector pack/split code is limb code
 				continue
 			}
 			found[name] = true
